@@ -1,5 +1,7 @@
 PROPS = ["CTV.Props.C14"]
 HARNESS = [dict(pkg="./trillian/ctfe/", test="TestVerifC14", race=True, timeout=1500),
+           # one oversized chain (certificate_chain body above 2^24-1 bytes) through the real add-chain of both modes
+           dict(pkg="./trillian/ctfe/", test="TestVerifC14Oversized", model=False),
            # the storage contract the model assumes, on the real SQL storages against a scripted database (no trace for the model)
            dict(pkg="./trillian/ctfe/storage/mysql/", test="TestVerifC14", model=False),
            dict(pkg="./trillian/ctfe/storage/postgresql/", test="TestVerifC14", model=False)]
